@@ -274,12 +274,34 @@ func Run(ctx *core.Ctx) {
 		"through a counting pass-through peer; fleet cases: self / A->B->A / A->B->terminal over every mix of http, https (TLS listeners, TLS-terminating relays) and " +
 		"socks5 upstream links, plain and CONNECT, entered through the main or an extra listener, the instances built from separate default configs, copies of one " +
 		"config value, the same config object twice, or configs differing only in Name, judged at every hop against a trace computed from the property on instance " +
-		"indices, the observed elements of every fleet asserted injective. Non-trivial = the request carries at least one Via line, or it is a loop / fleet case; distinct = distinct " +
+		"indices, the observed elements of every fleet asserted injective; first-requests cases: batches of FRESH instances (httpspec.NewStack as NewHTTPProxy calls it, and whole " +
+		"proxies, direct / http upstream, main and extra listener) each hit by a burst of 4-16 clients whose very first requests leave together (spinning goroutines / heads already " +
+		"in the socket buffers), then 2 more requests, then every forwarded request replayed into the instance: one tag per instance ever, every replay 400 without an upstream " +
+		"contact, tags injective over all instances of the run (child process); CONNECT cross-talk cases: 8-16 clients released together, each sending CONNECTs with a target and a " +
+		"Via chain of its own (unique marker in pseudonyms and comments, 1-3 elements on 1-2 lines, some with the own element) through one instance behind an http / https upstream " +
+		"proxy (plain and TLS listener) that records the heads - every head = its own request's chain + the instance's element, nothing of another client's, compared with " +
+		"Req.processConnect of that request alone - and through a two-instance CONNECT loop entered at both instances at once (each request passes each instance once, then 400). Non-trivial = the request carries at least one Via line, or it is a loop / fleet / first-requests / CONNECT cross-talk case; distinct = distinct " +
 		"(configuration, request bytes with the tag as a placeholder)")
 	p := newPools(ctx)
 	defer p.closeAll()
+	defer stopFirstChild()
 	for _, c := range core.LoadCorpus(ctx.Root, "C18") {
 		p.run(ctx, c)
+	}
+	// first requests of fresh instances: before the workers start (the bursts want the machine's processors)
+	for i, fc := range genFirst(ctx) {
+		if i == 0 {
+			ctx.Sample(fc)
+		}
+		runFirst(ctx, fc)
+	}
+	// CONNECT cross-talk: concurrent CONNECTs with chains of their own through one instance / a two-instance loop
+	for i, cc := range genConnCrossCases(ctx) {
+		if i == 0 {
+			ctx.Sample(cc)
+		}
+		raw, _ := json.Marshal(cc)
+		p.run(ctx, raw)
 	}
 	nChain := ctx.N(8000, 60000)
 	nLoop := ctx.N(650, 4500)
